@@ -11,6 +11,7 @@
   independence of the jennies) is decided by the correspondence runs of the check; see evidence.
 -/
 import Cog.Merge.Lemmas
+import Cog.Merge.SrcEquiv
 import Cog.Passes.RemoveIntersections
 namespace Cog.Merge
 open Cog Cog.IR Cog.OMap
@@ -430,6 +431,93 @@ theorem C07_removeIntersections_leaky_order_dependent :
 example :
     RI.namesOfB (Cog.Passes.RemoveIntersections.run [RI.wB, RI.wA]) = ["Holder", "Int64OrString"] ∧
     RI.namesOfB (Cog.Passes.RemoveIntersections.run [RI.wA, RI.wB]) = ["Holder", "Int64OrString"] := by
+  decide +kernel
+
+/-! ### The model IS the source: translated bodies of internal/ast/schema.go
+
+`Cog.Gen.MergeSrc` holds the bodies of `Schemas.Consolidate`, `Schema.Merge`, `Schema.AddObject`,
+`NewSchema`, `SchemaMeta.Equal` as translated from the current /repo on this run (extract/xmerge);
+`Cog/Merge/Src.lean` is the interpreter of the mini-language.  For ALL inputs and every object
+equality `beq` the translated bodies compute the hand-written model (`Cog/Merge/SrcEquiv.lean`).
+Compared projection: success/receiver resp. success/result list, and "some non-nil error" against
+the model's single `conflict` (the error text and the half-merged receiver after a failed `Merge`
+are not part of the model; `Consolidate` discards them). -/
+
+open Cog.Merge.Src Cog.Gen.MergeSrc in
+/-- `schema.Merge(other)`: the translated body returns `nil` and leaves the model's merged schema in
+    the receiver, or returns an error exactly when the model (package guard + `merge`) conflicts. -/
+theorem C07_src_merge (beq : Obj → Obj → Bool) (s other : Schema) :
+    mergeResult (call beq mergeBody mergeParams (.schema s) [.schema other]) =
+      some (mergeChecked beq s other) :=
+  src_merge beq s other
+
+open Cog.Merge.Src Cog.Gen.MergeSrc in
+/-- `schemas.Consolidate()`: the translated body leaves the input slice as it was and returns the
+    model's `consolidate` for the package order of first appearance (`packages ss`). -/
+theorem C07_src_consolidate (beq : Obj → Obj → Bool) (ss : Schemas) :
+    (call beq consolidateBody consolidateParams (.schemas ss) []).map (·.1) = some (.schemas ss) ∧
+    consolidateResult (call beq consolidateBody consolidateParams (.schemas ss) []) =
+      some (consolidate beq ss (packages ss)) :=
+  src_consolidate beq ss
+
+open Cog.Merge.Src Cog.Gen.MergeSrc in
+/-- The helpers the two bodies call are what the interpreter assumes them to be. -/
+theorem C07_src_helpers (beq : Obj → Obj → Bool) :
+    (∀ s o, call beq addObjectBody addObjectParams (.schema s) [.obj o] = some (.schema (addObject s o), [])) ∧
+    (∀ p m, call beq newSchemaBody newSchemaParams .unit [.str p, .smeta m] =
+      some (.unit, [.schema { pkg := p, smeta := m }])) ∧
+    (∀ a b : SchemaMeta, call beq metaEqualBody metaEqualParams (.smeta a) [.smeta b] =
+      some (.smeta a, [.b (decide (a = b))])) :=
+  ⟨src_addObject beq, src_newSchema beq, src_metaEqual beq⟩
+
+open Cog.Merge.Src Cog.Gen.MergeSrc in
+/-- Summary: the theorems of this file about `merge` / `consolidate` are theorems about the current
+    source text of schema.go — a successful translated `Consolidate` returns, per package, the union
+    of the inputs' definitions (here instantiated with `C07_consolidate_union`). -/
+theorem C07_source_refines_model (E : ObjEq) (ss R : Schemas)
+    (hk : ∀ s ∈ ss, ∀ kv ∈ s.objects, kv.2.name = kv.1)
+    (h : call E.beq consolidateBody consolidateParams (.schemas ss) [] = some (.schemas ss, [.schemas R, .nil])) :
+    consolidate E.beq ss (packages ss) = .ok R ∧
+    ∀ s ∈ ss, ∀ kv ∈ s.objects, ∃ r ∈ R, r.pkg = s.pkg ∧ HasDef r kv.1 kv.2 := by
+  have h2 := (C07_src_consolidate E.beq ss).2
+  rw [h] at h2
+  have hc : consolidate E.beq ss (packages ss) = .ok R := by
+    simp only [consolidateResult, Option.some.injEq] at h2; exact h2.symm
+  refine ⟨hc, fun s hs kv hkv => ?_⟩
+  exact C07_consolidate_union E ss (packages ss) R hk hc s hs
+    ((Cog.Merge.Src.mem_packages ss s.pkg).2 ⟨s, hs, rfl⟩) kv hkv
+
+namespace SrcWitness
+open Cog.Merge.Src Cog.Gen.MergeSrc
+def oA : Obj := { name := "A", ty := .struct [] [] none {}, selfPkg := "p", selfName := "A" }
+def oB : Obj := { name := "B", ty := .struct [] [] none {}, selfPkg := "p", selfName := "B" }
+def oA' : Obj := { name := "A", comments := ["x"], ty := .struct [] [] none {}, selfPkg := "p", selfName := "A" }
+def s1 : Schema := { pkg := "p", objects := [("A", oA)] }
+def s2 : Schema := { pkg := "p", entryPoint := "B", objects := [("B", oB)] }
+def s3 : Schema := { pkg := "p", objects := [("A", oA')] }
+def q1 : Schema := { pkg := "q", objects := [("A", oA)] }
+/-- a concrete (unlawful but total) equality: by comment count; enough to run the bodies -/
+def beqC (a b : Obj) : Bool := a.name == b.name && a.comments.length == b.comments.length
+def names : Option (Src.Val × List Src.Val) → List (String × List String)
+  | some (_, [.schemas R, .nil]) => R.map (fun s => (s.pkg, s.objects.map (·.1)))
+  | some (_, [.nil, .err m]) => [("error", [m])]
+  | _ => [("stuck", [])]
+def mnames : Option (Src.Val × List Src.Val) → List String
+  | some (.schema r, [.nil]) => r.entryPoint :: r.objects.map (·.1)
+  | some (_, [.err _]) => ["error"]
+  | _ => ["stuck"]
+end SrcWitness
+
+open Cog.Merge.Src Cog.Gen.MergeSrc SrcWitness in
+/-- non-vacuity: the translated bodies RUN (kernel evaluation of the interpreter on the generated
+    terms): a successful merge with the entry point taken over, a conflicting definition, the
+    package guard; `Consolidate` groups by package in order of first appearance and fails on a conflict. -/
+example :
+    mnames (call beqC mergeBody mergeParams (.schema s1) [.schema s2]) = ["B", "A", "B"] ∧
+    mnames (call beqC mergeBody mergeParams (.schema s1) [.schema s3]) = ["error"] ∧
+    mnames (call beqC mergeBody mergeParams (.schema s1) [.schema q1]) = ["error"] ∧
+    names (call beqC consolidateBody consolidateParams (.schemas [s1, q1, s2]) []) = [("p", ["A", "B"]), ("q", ["A"])] ∧
+    names (call beqC consolidateBody consolidateParams (.schemas [q1, s1, s3]) []) = [("error", ["Merge"])] := by
   decide +kernel
 
 end Cog.Merge
